@@ -911,8 +911,228 @@ def c10_19(ctx):
     return out
 
 
+def _wallet_cells():
+    """The six wallet types of the property as stand-in scripts (hashes are stand-ins, scripts serialise to a readable joined form)."""
+    import hashlib
+    from sa.cells import Obj
+    H = lambda b: hashlib.sha1(b).digest()
+    S = lambda b: hashlib.sha256(b).digest()
+    K = [b"\x02" + bytes([i]) * 32 for i in (0x11, 0x22, 0x33)]
+
+    def ser(cmds):
+        return b"|".join(c if isinstance(c, bytes) else bytes([c]) for c in cmds)
+
+    def script(cls, cmds):
+        return Obj("script", cls, {"commands": list(cmds)})
+    multi = [0x52, K[0], K[1], K[2], 0x53, 0xAE]
+    rs_wpkh = script("RedeemScript", [0, H(K[0])])
+    rs_wsh = script("RedeemScript", [0, S(ser(multi))])
+    wallets = [
+        ("p2pkh", script("P2PKHScriptPubKey", [0x76, 0xA9, H(K[0]), 0x88, 0xAC]), None, None, K[:1], 1),
+        ("p2wpkh", script("P2WPKHScriptPubKey", [0, H(K[0])]), None, None, K[:1], 1),
+        ("p2sh-p2wpkh", script("P2SHScriptPubKey", [0xA9, H(ser(rs_wpkh.attrs["commands"])), 0x87]), rs_wpkh, None, K[:1], 1),
+        ("p2sh multisig", script("P2SHScriptPubKey", [0xA9, H(ser(multi)), 0x87]), script("RedeemScript", multi), None, K, 2),
+        ("p2wsh multisig", script("P2WSHScriptPubKey", [0, S(ser(multi))]), None, script("WitnessScript", multi), K, 2),
+        ("p2sh-p2wsh multisig", script("P2SHScriptPubKey", [0xA9, H(ser(rs_wsh.attrs["commands"])), 0x87]), rs_wsh, script("WitnessScript", multi), K, 2),
+    ]
+    hooks = {("Script", "raw_serialize"): lambda o: ser(o.attrs["commands"]), ("RedeemScript", "hash160"): lambda o: H(ser(o.attrs["commands"])),
+             ("WitnessScript", "sha256"): lambda o: S(ser(o.attrs["commands"]))}
+    return wallets, hooks, ser, H, S
+
+
+def c10_20(ctx):
+    """PSBTIn.finalize evaluated for every wallet type of the property × every subset of the wallet's signers × both insertion orders of the
+    partial signatures: with at least the required number of signatures the final ScriptSig / witness are exactly the script's own (first m
+    signatures in script key order, whatever order they arrived in); with fewer the finaliser refuses AND leaves the input as it was -- a
+    refused finalize that has already written script_sig or witness serialises to bytes PSBT.parse rejects"""
+    import itertools
+    from sa.cells import Evaluator, Obj, Raised, Undecided
+    spec = "psbt:PSBTIn.finalize"
+    mod, fn = rl.get(ctx, spec)
+    wallets, hooks, ser, H, S = _wallet_cells()
+    out = []
+    for label, spk, rs, ws, keys, m in wallets:
+        verdict = None
+        for r in range(len(keys) + 1):
+            for subset in itertools.combinations(range(len(keys)), r):
+                for order in ({subset, tuple(reversed(subset))}):
+                    ctx.count("cells")
+                    sigs = {keys[i]: b"sig%d" % i for i in order}
+                    tx_in = Obj("tx", "TxIn", {"prev_tx": b"\x01" * 32, "prev_index": 0})
+                    me = Obj("psbt", "PSBTIn", {"tx_in": tx_in, "prev_tx": None, "prev_out": Obj("tx", "TxOut", {"amount": 1000, "script_pubkey": spk}),
+                                                "sigs": sigs, "hash_type": None, "redeem_script": rs, "witness_script": ws, "named_pubs": {}, "script_sig": None,
+                                                "witness": None, "extra_map": {}})
+                    hk = dict(hooks)
+                    hk[("PSBTIn", "script_pubkey")] = lambda o, spk=spk: spk
+                    try:
+                        Evaluator(ctx.repo, method_hooks=hk).call(spec, [], self_obj=me)
+                        raised = None
+                    except Raised as x:
+                        raised = x.name
+                    except Undecided as u:
+                        return [ctx.err(spec, "finalize not evaluable for a %s input: %s" % (label, u), fn, mod)]
+                    ss, wi = me.attrs.get("script_sig"), me.attrs.get("witness")
+                    got_ss = ss.attrs.get("commands") if isinstance(ss, Obj) else ss
+                    got_wi = wi.attrs.get("items") if isinstance(wi, Obj) else wi
+                    who = "%s input with signatures of signers %s (arrival order %s)" % (label, list(subset), list(order))
+                    enough = (len(subset) == 1) if len(keys) == 1 else len(subset) >= m
+                    if not enough:
+                        if raised is None:
+                            verdict = "%s: finalised although %d signature(s) are required" % (who, m)
+                        elif got_ss is not None or got_wi is not None:
+                            verdict = "%s: finalize refuses (%s) but has already written %s -- the input now serialises with a final field that cannot verify, and PSBT.parse rejects those bytes" % (
+                                who, raised, "script_sig" if got_ss is not None else "witness")
+                    else:
+                        first = [sigs[keys[i]] for i in sorted(subset)][:m]
+                        if label == "p2pkh":
+                            want_ss, want_wi = [first[0], keys[0]], None
+                        elif label in ("p2wpkh", "p2sh-p2wpkh"):
+                            want_ss, want_wi = ([ser(rs.attrs["commands"])] if rs else []), [first[0], keys[0]]
+                        elif label == "p2sh multisig":
+                            want_ss, want_wi = [0] + first + [ser(rs.attrs["commands"])], None
+                        else:
+                            want_ss, want_wi = ([ser(rs.attrs["commands"])] if rs else []), [b""] + first + [ser(ws.attrs["commands"])]
+                        if raised is not None:
+                            verdict = "%s: refused (%s) although the required %d signature(s) are present" % (who, raised, m)
+                        elif got_ss != want_ss or got_wi != want_wi:
+                            verdict = "%s: final %s is not the script's own (first %d signatures in script key order %s)" % (
+                                who, "ScriptSig" if got_ss != want_ss else "witness", m, "and the script" if label != "p2pkh" else "and the key")
+                    if verdict:
+                        break
+                if verdict:
+                    break
+            if verdict:
+                break
+        out.append(ctx.bad(spec, verdict, fn, mod, key="finalize-cells:" + label) if verdict else
+                   ctx.ok(spec, "%s: every signer subset in both arrival orders finalises exactly at the threshold, to the script's own ScriptSig / witness; a refusal leaves the input untouched" % label,
+                          fn, mod, key="finalize-cells:" + label))
+    return out
+
+
+def c10_21(ctx):
+    """PSBTIn.update evaluated over the three places the spent output can come from (the lookup of previous transactions, the non-witness
+    UTXO the input already carries, the witness UTXO it already carries) × the six wallet types: whenever the output is known from any of
+    them the updater attaches the wallet's key derivations (and the scripts found in the lookups).  A second updater that brings only its own
+    keys relies on the copies already in the PSBT; an input it skips can never be signed by that cosigner"""
+    from sa.cells import Evaluator, Obj, Raised, Undecided
+    spec = "psbt:PSBTIn.update"
+    mod, fn = rl.get(ctx, spec)
+    wallets, hooks, ser, H, S = _wallet_cells()
+    out = []
+    hk = dict(hooks)
+    hk[("S256Point", "sec")] = lambda o, *a, **k: o.attrs["sec_"]
+    hk[("HDPublicKey", "sec")] = lambda o, *a, **k: o.attrs["sec_"]
+    for label, spk, rs, ws, keys, m in wallets:
+        segwit = label not in ("p2pkh", "p2sh multisig")
+        verdict = None
+        for source in ("lookup", "carried non-witness UTXO", "carried witness UTXO"):
+            if source == "carried witness UTXO" and not segwit:
+                continue
+            for scripts_known in (True, False):
+                ctx.count("cells")
+                txid = b"\x07" * 32
+                prev_out = Obj("tx", "TxOut", {"amount": 1000, "script_pubkey": spk})
+                prev = Obj("tx", "Tx", {"tx_outs": [Obj("tx", "TxOut", {"amount": 5, "script_pubkey": None}), prev_out]})
+                tx_in = Obj("tx", "TxIn", {"prev_tx": txid, "prev_index": 1})
+                me = Obj("psbt", "PSBTIn", {"tx_in": tx_in, "prev_tx": prev if source == "carried non-witness UTXO" else None,
+                                            "prev_out": prev_out if source == "carried witness UTXO" else None, "sigs": {}, "hash_type": None,
+                                            "redeem_script": rs if scripts_known else None, "witness_script": ws if scripts_known else None,
+                                            "named_pubs": {}, "script_sig": None, "witness": None, "extra_map": {}})
+                named = {k: Obj("psbt", "NamedHDPublicKey", {"sec_": k, "point": Obj("psbt", "NamedPublicKey", {"sec_": k})}) for k in keys}
+                pubkey_lookup = {}
+                for k, o in named.items():
+                    pubkey_lookup[k] = o
+                    pubkey_lookup[H(k)] = o
+                redeem_lookup = {spk.attrs["commands"][1]: rs} if rs is not None else {}
+                witness_lookup = {S(ser(ws.attrs["commands"])): ws} if ws is not None else {}
+                try:
+                    Evaluator(ctx.repo, method_hooks=hk).call(spec, [{txid: prev} if source == "lookup" else {}, pubkey_lookup, redeem_lookup, witness_lookup], self_obj=me)
+                except Raised as x:
+                    verdict = "%s input, spent output known from the %s: update raises %s" % (label, source, x.name)
+                    break
+                except Undecided as u:
+                    return [ctx.err(spec, "update not evaluable for a %s input: %s" % (label, u), fn, mod)]
+                who = "%s input, spent output known from the %s, scripts %s" % (label, source, "already attached" if scripts_known else "only in the lookups")
+                if set(me.attrs["named_pubs"].keys()) != set(keys):
+                    verdict = "%s: the updater attaches the derivations of %d of the wallet's %d key(s) -- this cosigner cannot sign the input" % (who, len(me.attrs["named_pubs"]), len(keys))
+                elif me.attrs["redeem_script"] is not rs or me.attrs["witness_script"] is not ws:
+                    verdict = "%s: the %s is not attached" % (who, "RedeemScript" if me.attrs["redeem_script"] is not rs else "WitnessScript")
+                elif segwit and me.attrs["prev_out"] is not prev_out:
+                    verdict = "%s: the witness UTXO is not recorded" % who
+                elif not segwit and me.attrs["prev_tx"] is not prev:
+                    verdict = "%s: the non-witness UTXO is not recorded" % who
+                if verdict:
+                    break
+            if verdict:
+                break
+        out.append(ctx.bad(spec, verdict, fn, mod, key="update-cells:" + label) if verdict else
+                   ctx.ok(spec, "%s: keys, scripts and UTXO are attached from every source of the spent output" % label, fn, mod, key="update-cells:" + label))
+    return out
+
+
+def c10_22(ctx):
+    """The global map round trip, evaluated: PSBT.parse over the bytes PSBT.serialize's layout produces for a global map with (a) two xpubs of
+    different masters, (b) two different xpubs of the same master (one signer holding two accounts -- create_multisig_psbt allows it), (c) unknown
+    key-value pairs, one with an empty value; the parse must accept and re-serialising the parsed object must give the same bytes.  The unsigned
+    transaction, the xpub record codec and the constructor's validation are stand-ins (C10.1/C10.2/C08 decide them)"""
+    from sa.cells import ClassRef, Evaluator, FileStandIn, Obj, Raised, Undecided
+    spec_p, spec_s = "psbt:PSBT.parse", "psbt:PSBT.serialize"
+    mod, fn = rl.get(ctx, spec_p)
+    TX = b"\x02\x00\x00\x00\x00\x00\x00\x00\x00\x00"
+
+    def kv(k, v):
+        return bytes([len(k)]) + k + bytes([len(v)]) + v
+
+    def xpub(i, fp, depth=1):
+        key = b"\x01" + bytes([i]) * 78
+        val = fp + b"\x2c\x00\x00\x80" * depth
+        return key, val
+
+    def hd_parse(cls, key, s, network=None, **kw):
+        n = s.read(1)[0]
+        val = s.read(n)
+        return Obj("psbt", "NamedHDPublicKey", {"key": key, "val": val, "network": "mainnet", "root_fingerprint": val[:4], "root_path": val[4:], "depth": (len(val) - 4) // 4})
+    hooks = {("Tx", "parse_legacy"): lambda cls, s, *a, **k: Obj("tx", "Tx", {"tx_ins": [], "tx_outs": [], "raw": s.read(len(TX)), "segwit": False, "version": 2, "locktime": 0, "network": "mainnet"}),
+             ("Tx", "serialize_legacy"): lambda o: o.attrs["raw"], ("Tx", "serialize"): lambda o: o.attrs["raw"],
+             ("NamedHDPublicKey", "parse"): hd_parse, ("NamedHDPublicKey", "raw_serialize"): lambda o: o.attrs["key"][1:],
+             ("NamedHDPublicKey", "serialize"): lambda o: kv(o.attrs["key"], o.attrs["val"]),
+             ("PSBT", "__init__"): lambda o, tx_obj, psbt_ins, psbt_outs, hd_pubs=None, extra_map=None, network="mainnet", *a, **k: o.attrs.update(
+                 {"tx_obj": tx_obj, "psbt_ins": psbt_ins, "psbt_outs": psbt_outs, "hd_pubs": hd_pubs or {}, "extra_map": extra_map or {}, "network": network})}
+    FP1, FP2 = b"\xaa\xbb\xcc\xdd", b"\x11\x22\x33\x44"
+    maps = [
+        ("two xpubs of different masters", [xpub(1, FP1), xpub(2, FP2)], []),
+        ("two different xpubs of the same master (one signer, two accounts)", [xpub(1, FP1), xpub(2, FP1)], []),
+        ("two xpubs of the same master at different depths", [xpub(1, FP1, 1), xpub(2, FP1, 3)], []),
+        ("unknown key-value pairs, one with an empty value", [], [(b"\xfc\x01", b"\x05\x06"), (b"\xfc\x02", b""), (b"\xfd", b"\x00")]),
+        ("xpubs and unknown pairs together", [xpub(3, FP2), xpub(4, FP2)], [(b"\xfc\x09", b"\x01")]),
+    ]
+    out = []
+    for label, xs, extra in maps:
+        ctx.count("cells")
+        data = b"psbt\xff" + kv(b"\x00", TX) + b"".join(kv(k, v) for k, v in sorted(xs)) + b"".join(kv(k, v) for k, v in sorted(extra)) + b"\x00"
+        try:
+            ev = Evaluator(ctx.repo, method_hooks=hooks)
+            obj = ev.call(spec_p, [FileStandIn(data)], self_obj=ClassRef("psbt", "PSBT"))
+            again = Evaluator(ctx.repo, method_hooks=hooks).call(spec_s, [], self_obj=obj)
+        except Raised as x:
+            out.append(ctx.bad(spec_p, "a global map with %s -- which PSBT.serialize writes -- is refused on load (%s): the PSBT does not survive serialise → parse" % (label, x.name),
+                               fn, mod, key="global-map:" + label.split(" (")[0]))
+            continue
+        except Undecided as u:
+            return [ctx.err(spec_p, "global map round trip not evaluable (%s): %s" % (label, u), fn, mod)]
+        if again != data:
+            out.append(ctx.bad(spec_p, "a global map with %s does not re-serialise to the bytes it was parsed from" % label, fn, mod, key="global-map:" + label.split(" (")[0]))
+        else:
+            out.append(ctx.ok(spec_p, "global map with %s: accepted, re-serialises byte-identically" % label, fn, mod, key="global-map:" + label.split(" (")[0]))
+    return out
+
+
+
 OBLIGATIONS = [
     ("C10.19", "CELLS output metadata", c10_19),
+    ("C10.20", "CELLS finaliser", c10_20),
+    ("C10.21", "CELLS updater sources", c10_21),
+    ("C10.22", "CELLS global map round trip", c10_22),
     ("C10.18", "SHARED", c10_18),
     ("C10.17", "SET-ORDER", c10_17),
     ("C10.12", "DATAFLOW commitment", c10_12),
